@@ -249,6 +249,7 @@ package raft
 //@ spec func parseDur(s string) time.Duration = libfn("time.ParseDuration", 0, s)
 //@ func (cfg *Config) applyJSONConfig
 //@   property C15
+//@   inline SetIfNotDefault
 //@   requires cfg != nil && cfg.RaftConfig != nil && jcfg != nil
 //@   ensures [data-folder] cfg.DataFolder == ite(jcfg.DataFolder != "", jcfg.DataFolder, old(cfg.DataFolder))
 //@   ensures [wait-for-leader-timeout] cfg.WaitForLeaderTimeout == ite(parseDur(jcfg.WaitForLeaderTimeout) != 0, parseDur(jcfg.WaitForLeaderTimeout), old(cfg.WaitForLeaderTimeout))
